@@ -82,6 +82,17 @@ def apply_op(g, v, op, v2=None) -> None:
         ids = kmask_ids(op[1])
         g.set_known_values([(v2 if op[2] >> s & 1 else v)[s] for s in ids], [coal(s) for s in ids])
         return
+    if kind == "observe":        # read-only public protocol: nothing here may change the object
+        repr(g)
+        str(g)
+        f"{g}"
+        g.copy()
+        _ = g == g
+        _ = -g
+        _ = g.full
+        for getter in (g.get_lower_bounds, g.get_upper_bounds, g.get_intervals, g.are_values_known, g.get_known_values):
+            getter()
+        return
     if kind == "scribble":       # overwrite the bounds of every unknown coalition through the public bulk setters
         N = 1 << g.number_of_players
         g.set_lower_bounds(np.full(N, -7.5))
@@ -408,7 +419,11 @@ class LatticeRun:
                         self.stats.transitions += 1
                         # de-duplicate on the table AND on everything else the object carries (hidden memo, flags ...)
                         dkey = (td.key, repr(deep_digest({a: b for a, b in vars(g).items() if a != "_values"})))
-                        if dkey in seen:
+                        if op[0] == "observe":
+                            if td.key != read(obj).key:
+                                self._viol("a read-only public operation (repr / str / copy / == / negation / getters) changed the table", h1, K=kmask_ids(k))
+                                continue
+                        elif dkey in seen:
                             continue
                         seen.add(dkey)
                         self.stats.states += 1
@@ -509,6 +524,7 @@ class LatticeRun:
                 ops.append(("reveal_alt", s) if not k >> s & 1 else ("set_alt", s))
         if self.scribble:
             ops.append(("scribble",))
+            ops.append(("observe",))
         return ops
 
 
